@@ -135,6 +135,12 @@ func execC19(e *Env, p *Plan) error {
 		{"forged-cookie", nil, []*http.Cookie{forged}, open},
 		{"tampered-cookie", nil, []*http.Cookie{tampered}, open},
 		{"session-cookie", nil, []*http.Cookie{goodCookie}, open || (cookieLive && ghMode == "member")},
+		// once more after valid credentials were seen: nothing a handler
+		// remembers about an authorised caller may open the door for the next
+		{"right-token", map[string]string{"X-Zeno-Auth-Token": c19Pass}, nil, open || pwSet},
+		{"none", nil, nil, open},
+		{"wrong-token", map[string]string{"X-Zeno-Auth-Token": "nope"}, nil, open},
+		{"forged-cookie", nil, []*http.Cookie{forged}, open},
 	}
 	endpoints := []struct{ path, q string }{{"/run", sql}, {"/async", sql}, {"/immediate", sql}, {"/metrics", ""}}
 	if permalink != "" {
